@@ -10,7 +10,7 @@ cp -r /repo "$S/base"; rm -rf "$S/base/_build"
 if ! grep -q 'n_glyphs + cache->n_tombstones >= HASH_SIZE - 1' "$S/base/pixman/pixman-glyph.c"; then
     (cd "$S/base" && patch -p1 -s < "$V/fixes/C17-glyph-cache-last-null-slot.patch") || exit 2
 fi
-for p in "$V"/selftest/glyph/m*.patch; do
+for p in "$V"/selftest/glyph/m*.patch; do   # equiv-*.patch: behaviour-preserving, see RESULTS.txt
     n=$(basename "$p" .patch)
     rm -rf "$S/mut"; cp -r "$S/base" "$S/mut"
     (cd "$S/mut" && patch -p1 -s < "$p") || { echo "$n: patch does not apply"; continue; }
